@@ -17,7 +17,7 @@ from fractions import Fraction as Fr
 
 import numpy as np
 
-from .. import c09_gen, c09_oracle
+from .. import c03_t2, c09_gen, c09_oracle
 from ..c09_build import compile_generated
 from ..core import TranslateError, clist, cnat, cq, np_seed, scan_forbidden
 
@@ -201,7 +201,18 @@ def run(ctx, only=None):
         ok, failing = compile_generated(ctx, chunks, info)
         if ok:
             ctx.write_gen('C09_Elements', summ)
-            ctx.compile_dyn(['gen/C09_Elements.v'] + ctx.copy_dyn())
+            t2_ok = True
+            try:
+                t2txt, t2info = c03_t2.generate_c09()
+                ctx.write_gen('C09_T2', t2txt)
+                ctx.extra['t2_gbasis_sites'] = t2info['einsum_sites']
+            except TranslateError as e:
+                ctx.broke('translator', 'c03_t2.generate_c09 (gbasis einsum / scale expressions)', e)
+                t2_ok = False
+            dyn = ctx.copy_dyn()
+            order = ['dyn/C09Pull.v', 'dyn/C09Mapped.v', 'dyn/C09Real.v']
+            dyn = [d for d in order if d in dyn] + [d for d in dyn if d not in order]
+            ctx.compile_dyn(['gen/C09_Elements.v'] + (['gen/C09_T2.v'] + dyn if t2_ok else []))
             ctx.prove()
         else:
             ctx.broke('proof', 'props/C09.v', 'not compiled: generated identities failed for ' + ', '.join(sorted(c for c, _ in failing)))
